@@ -55,12 +55,22 @@ Definition lmerge (a b : look) : look :=
   | Dup => Dup
   end.
 
-(* field builders of the serialisers *)
-Definition fld (k : string) (v : json) : list (string * json) := [(k, v)].
-Definition ofld {A} (k : string) (e : A -> json) (o : option A) : list (string * json) :=
-  match o with Some a => [(k, e a)] | None => [] end.
-Definition olook {A} (e : A -> json) (o : option A) : look :=
-  match o with Some a => Once (e a) | None => Absent end.
+(* field list of a serialised struct: required field, or Option field with `skip_serializing_if = "Option::is_none"` *)
+Inductive fitem := FReq (k : string) (v : json) | FOpt (k : string) (ov : option json).
+Definition olook (ov : option json) : look := match ov with Some v => Once v | None => Absent end.
+Definition fkey (f : fitem) : string := match f with FReq k _ => k | FOpt k _ => k end.
+Definition flook (f : fitem) : look := match f with FReq _ v => Once v | FOpt _ ov => olook ov end.
+Fixpoint kv_of (fs : list fitem) : list (string * json) :=
+  match fs with
+  | [] => []
+  | FReq k v :: r => (k, v) :: kv_of r
+  | FOpt k ov :: r => match ov with Some v => (k, v) :: kv_of r | None => kv_of r end
+  end.
+(* lookup on the symbolic field list (used by the proofs only) *)
+Fixpoint getf (ns : list string) (fs : list fitem) : look :=
+  match fs with [] => Absent | f :: r => if smem (fkey f) ns then flook f else getf ns r end.
+Fixpoint countf (ns : list string) (fs : list fitem) : nat :=
+  match fs with [] => 0%nat | f :: r => ((if smem (fkey f) ns then 1 else 0) + countf ns r)%nat end.
 
 (* field readers of visit_map *)
 Definition req {A} (dec : json -> option A) (r : look) : option A :=
@@ -137,6 +147,12 @@ Definition unit_variant_name (j : json) : option string :=
   | JStr s => Some s
   | JObj [(k, JNull)] => Some k
   | _ => None
+  end.
+(* index of the variant a name (or alias) denotes *)
+Fixpoint vindex (s : string) (nss : list (list string)) : option nat :=
+  match nss with
+  | [] => None
+  | ns :: r => if smem s ns then Some 0%nat else option_map S (vindex s r)
   end.
 (* internally tagged: the tag of an object *)
 Definition tag_of (t : string) (j : json) : option (string * list (string * json)) :=
